@@ -170,4 +170,28 @@ def pickCompaction (p : Params) (maxFileSize : Nat) (size : Nat → Nat) (levels
   | .picked lvl in0 in1 => some (lvl, in0, in1)
   | _ => none
 
+/-! ### `VersionSet::pick_compaction`, seek-triggered branch and the whole function -/
+
+/-- the seek-triggered branch: the recorded file (`SeekCompactionMetadata::file_to_compact` with
+its level) is the only level input, at level 0 replaced by the level-0 files overlapping it, then
+`finalize_compaction_inputs`.  There is no assertion in this branch: a level without a next level
+would index `files[level + 1]` out of bounds inside `finalize_compaction_inputs` -/
+def pickSeek (maxFileSize : Nat) (size : Nat → Nat) (levels : List (List File)) (lvl : Nat) (f : File) :
+    Outcome :=
+  if numLevels ≤ lvl + 1 then .lastLevelChosen lvl
+  else
+    let r := setupOtherInputs size levels lvl (seedFiles (levels.getD lvl []) lvl f) maxFileSize
+    .picked lvl r.1 r.2
+
+/-- the whole `pick_compaction`: a size compaction is preferred; otherwise the recorded seek
+compaction `(level, file)`, if any -/
+def pickAny (p : Params) (maxFileSize : Nat) (size : Nat → Nat) (levels : List (List File))
+    (pointers : List (Option (Bytes × Nat))) (seek : Option (Nat × File)) : Outcome :=
+  match pickOutcome p maxFileSize size levels pointers with
+  | .nothing =>
+    match seek with
+    | some (lvl, f) => pickSeek maxFileSize size levels lvl f
+    | none => .nothing
+  | o => o
+
 end Rain.Score
